@@ -14,6 +14,72 @@ From V.proofs Require Import BaseP CodecStrP EnumTabP CodecsP VcsP LossyRtP Deri
 
 Local Open Scope N_scope.
 
+(* ------------------------------------------------------------------ Vec<String>::sort, dedup: the facts used below *)
+Lemma str_leb_total a : forall b, str_leb a b = false -> str_leb b a = true.
+Proof.
+  induction a as [|x a IH]; intros [|y b]; cbn [str_leb]; try discriminate; [reflexivity|].
+  destruct (x <? y) eqn:E1; [discriminate|]. destruct (x =? y) eqn:E2.
+  - apply N.eqb_eq in E2. subst y. rewrite E1, N.eqb_refl. apply IH.
+  - intros _. apply N.ltb_ge in E1. apply N.eqb_neq in E2. assert (H : y < x) by lia. apply N.ltb_lt in H. rewrite H. reflexivity.
+Qed.
+Fixpoint sorted_str (l : list str) : bool :=
+  match l with
+  | [] => true
+  | x :: r => match r with [] => true | y :: _ => str_leb x y end && sorted_str r
+  end.
+Lemma ins_sorted_sorted x l : sorted_str l = true -> sorted_str (ins_sorted x l) = true.
+Proof.
+  induction l as [|y r IH]; intros H; [reflexivity|]. cbn [ins_sorted]. destruct (str_leb x y) eqn:E.
+  - cbn [sorted_str] in *. rewrite E, H. reflexivity.
+  - cbn [sorted_str] in H. apply andb_true_iff in H. destruct H as [H1 H2]. specialize (IH H2).
+    change (sorted_str (y :: ins_sorted x r)) with (match ins_sorted x r with [] => true | z :: _ => str_leb y z end && sorted_str (ins_sorted x r)).
+    rewrite IH, andb_true_r. destruct r as [|z r']; cbn [ins_sorted]; [apply str_leb_total; exact E|].
+    destruct (str_leb x z); [apply str_leb_total; exact E|exact H1].
+Qed.
+Lemma sort_sorted l : sorted_str (sort_str l) = true.
+Proof. induction l as [|x r IH]; [reflexivity|]. cbn [sort_str fold_right]. apply ins_sorted_sorted. exact IH. Qed.
+Lemma sort_of_sorted l : sorted_str l = true -> sort_str l = l.
+Proof.
+  induction l as [|x r IH]; intros H; [reflexivity|]. cbn [sorted_str] in H. apply andb_true_iff in H. destruct H as [H1 H2].
+  cbn [sort_str fold_right]. fold (sort_str r). rewrite (IH H2). destruct r as [|y r']; [reflexivity|]. cbn [ins_sorted]. rewrite H1. reflexivity.
+Qed.
+Lemma ins_sorted_perm x l : Permutation (ins_sorted x l) (x :: l).
+Proof.
+  induction l as [|y r IH]; [apply Permutation_refl|]. cbn [ins_sorted]. destruct (str_leb x y); [apply Permutation_refl|].
+  eapply Permutation_trans; [apply perm_skip; exact IH|apply perm_swap].
+Qed.
+Lemma sort_perm l : Permutation (sort_str l) l.
+Proof.
+  induction l as [|x r IH]; [apply Permutation_refl|]. cbn [sort_str fold_right]. fold (sort_str r).
+  eapply Permutation_trans; [apply ins_sorted_perm|apply perm_skip; exact IH].
+Qed.
+
+Lemma existsb_str_eqb_In x l : existsb (str_eqb x) l = true <-> In x l.
+Proof. apply existsb_str_In. Qed.
+Lemma dedup_in x l : In x (dedup_str l) <-> In x l.
+Proof.
+  induction l as [|y r IH]; [tauto|]. cbn [dedup_str]. destruct (existsb (str_eqb y) r) eqn:E.
+  - rewrite IH. cbn [In]. split; [tauto|]. intros [<-|H]; [apply existsb_str_eqb_In; exact E|exact H].
+  - cbn [In]. rewrite IH. tauto.
+Qed.
+Lemma dedup_nodup l : NoDup (dedup_str l).
+Proof.
+  induction l as [|y r IH]; [constructor|]. cbn [dedup_str]. destruct (existsb (str_eqb y) r) eqn:E; [exact IH|].
+  constructor; [|exact IH]. rewrite dedup_in. intros Hin. apply existsb_str_eqb_In in Hin. congruence.
+Qed.
+Lemma dedup_of_nodup l : NoDup l -> dedup_str l = l.
+Proof.
+  induction 1 as [|y r Hn _ IH]; [reflexivity|]. cbn [dedup_str]. destruct (existsb (str_eqb y) r) eqn:E.
+  - apply existsb_str_eqb_In in E. contradiction.
+  - rewrite IH. reflexivity.
+Qed.
+
+Lemma rr_join_lf ll ks : forallb ws_item ks = true -> rr ll (join [LF] ks) = join [LF] ks.
+Proof.
+  intros Hi. destruct ll; [|reflexivity]. cbn [rr]. destruct ks as [|w1 rest]; [reflexivity|].
+  apply ll_norm_join; [|apply forallb_ws_no_lf; exact Hi]. cbn [forallb] in Hi. apply andb_true_iff in Hi. destruct Hi as [H1 _]. apply (ws_item_facts _ H1).
+Qed.
+
 (* ------------------------------------------------------------------ the premise about the remaining externals *)
 Section Ext0.
 Variable E0 : Type.
@@ -317,6 +383,176 @@ Proof.
     split; [apply canon_single; [exact Hn0|apply no_lead_not_indent; exact Tl]|].
     rewrite rr_single by (apply no_eol_no_lf; exact Hn0). cbn [xparse]. unfold parsed_vcs_from_str.
     rewrite (trim_id s0 Tl Tt), Er, Ev. reflexivity.
+Qed.
+
+(* ---- 13: the repository-type set *)
+Lemma assoc_n_in k l (v : str) : assoc_n k l = Some v -> In (k, v) l.
+Proof.
+  induction l as [|[k' v'] r IH]; cbn [assoc_n]; [discriminate|]. destruct (k =? k') eqn:Ek.
+  - intros H. injection H as <-. apply N.eqb_eq in Ek. subst. left. reflexivity.
+  - intros H. right. apply IH. exact H.
+Qed.
+Lemma repotype_kws_ok : forallb (fun vk => ws_item (snd vk) && negb (starts_hash (snd vk))) (et_display RepositoryType_tab) = true.
+Proof. vm_compute. reflexivity. Qed.
+Definition repo_word (w : str) : option str :=
+  match enum_parse RepositoryType_tab w with Ok v => Some (enum_text RepositoryType_tab v) | _ => None end.
+Lemma repo_word_id w k : repo_word w = Some k -> k = w /\ ws_item w = true /\ starts_hash w = false.
+Proof.
+  unfold repo_word. destruct (enum_parse RepositoryType_tab w) as [v| | |] eqn:Ep; try discriminate. intros H. injection H as <-.
+  destruct tabs_ok as (_ & _ & _ & Hok & _ & _ & _ & _ & _ & Hpre). pose proof (enum_text_parse _ _ _ Hok Hpre Ep) as Ht. split; [exact Ht|].
+  destruct (enum_canonical _ Hok w v Ep) as (s' & Hs & Hpr & _). unfold enum_pre in Hs. rewrite Hpre in Hs. injection Hs as <-.
+  unfold enum_print in Hpr. destruct (assoc_n v (et_display RepositoryType_tab)) as [k|] eqn:Ea; [|discriminate]. injection Hpr as ->.
+  pose proof repotype_kws_ok as Hk. rewrite forallb_forall in Hk. specialize (Hk _ (assoc_n_in _ _ _ Ea)). cbn [snd] in Hk.
+  apply andb_true_iff in Hk. destruct Hk as [H1 H2]. apply negb_true_iff in H2. auto.
+Qed.
+Lemma parse_all_repo ws ks : parse_all repo_word ws = Some ks -> ks = ws.
+Proof.
+  intros H. apply parse_all_map in H. induction H as [|w k ws ks Hw _ IH]; [reflexivity|]. destruct (repo_word_id _ _ Hw) as [-> _]. rewrite IH. reflexivity.
+Qed.
+
+Lemma parse_all_repo_in ws : forall ks, parse_all repo_word ws = Some ks -> forall k, In k ws -> repo_word k = Some k.
+Proof.
+  induction ws as [|w r IH]; intros ks H k Hk; [contradiction|]. cbn [parse_all] in H.
+  destruct (repo_word w) as [a|] eqn:Ew; [|discriminate]. destruct (parse_all repo_word r) as [l|] eqn:Er; [|discriminate].
+  destruct Hk as [<-|Hk]; [destruct (repo_word_id _ _ Ew) as [-> _]; exact Ew|apply (IH l eq_refl k Hk)].
+Qed.
+
+Lemma law_13 ll : law ll 13.
+Proof.
+  intros x e _ Hx Hp. cbn [xparse] in Hp. unfold types_parse in Hp. fold repo_word in Hp.
+  destruct (parse_all repo_word (Derive.split_ws x)) as [kws|] eqn:Ep; [|discriminate]. injection Hp as <-. cbn [xprint]. unfold types_print.
+  pose proof (parse_all_repo _ _ Ep) as ->. set (ws := Derive.split_ws x) in *. set (ks := sort_str (dedup_str ws)).
+  assert (Hin : forall k, In k ks -> repo_word k = Some k).
+  { intros k Hk. apply (Permutation_in _ (sort_perm _)) in Hk. apply (proj1 (dedup_in _ _)) in Hk. apply (parse_all_repo_in _ _ Ep k Hk). }
+  assert (Hitems : forallb ws_item ks = true /\ forallb (fun w => negb (starts_hash w)) ks = true).
+  { split; apply forallb_forall; intros k Hk; destruct (repo_word_id _ _ (Hin k Hk)) as (_ & H1 & H2); [exact H1|rewrite H2; reflexivity]. }
+  destruct Hitems as [Hi Hh]. change (join [10] (sort_str (dedup_str ws))) with (join [LF] ks). split.
+  - apply canon_join_lf; [exact Hi|]. destruct ks as [|k1 r]; [reflexivity|]. cbn [tl forallb] in *. apply andb_true_iff in Hh. apply Hh.
+  - replace (rr ll (join [10] ks)) with (join [10] ks) by (symmetry; apply (rr_join_lf ll ks Hi)). cbn [xparse]. unfold types_parse. fold repo_word. rewrite (split_ws_join_lf _ Hi).
+    assert (Hpa : parse_all repo_word ks = Some ks).
+    { apply parse_all_of. clear -Hin. induction ks as [|k r IH]; [constructor|]. constructor; [apply Hin; left; reflexivity|apply IH; intros k' Hk'; apply Hin; right; exact Hk']. }
+    rewrite Hpa. cbn [option_map]. f_equal. f_equal.
+    rewrite (dedup_of_nodup ks) by (unfold ks; apply (Permutation_NoDup (Permutation_sym (sort_perm _))), dedup_nodup).
+    apply sort_of_sorted. unfold ks. apply sort_sorted.
+Qed.
+
+(* ---- 12: the environment map *)
+Lemma map_insert_in k v m kv : In kv (map_insert k v m) -> kv = (k, v) \/ In kv m.
+Proof.
+  induction m as [|[k' v'] r IH]; cbn [map_insert]; [intros [<-|[]]; left; reflexivity|].
+  destruct (str_eqb k k'); cbn [In]; [intros [<-|H]; [left; reflexivity|right; right; exact H]|].
+  intros [<-|H]; [right; left; reflexivity|]. destruct (IH H) as [->|H']; [left; reflexivity|right; right; exact H'].
+Qed.
+Lemma map_insert_keys k v m : NoDup (map fst m) -> NoDup (map fst (map_insert k v m)) /\ (forall k', In k' (map fst (map_insert k v m)) <-> k = k' \/ In k' (map fst m)).
+Proof.
+  induction m as [|[k' v'] r IH]; intros Hn; cbn [map_insert].
+  - split; [constructor; [intros []|constructor]|]. intros k0. cbn. tauto.
+  - cbn [map fst] in Hn. inversion Hn as [|? ? Hni Hnr]; subst. destruct (str_eqb k k') eqn:Ek.
+    + apply LossyRtP.str_eqb_eq in Ek. subst k'. split; [cbn [map fst]; constructor; assumption|]. intros k0. cbn [map fst In]. tauto.
+    + destruct (IH Hnr) as [I1 I2]. split.
+      * cbn [map fst]. constructor; [|exact I1]. rewrite I2. intros [<-|H]; [rewrite LossyRtP.str_eqb_refl in Ek; discriminate|contradiction].
+      * intros k0. cbn [map fst In]. rewrite I2. tauto.
+Qed.
+Lemma map_insert_fresh k v m : ~ In k (map fst m) -> map_insert k v m = m ++ [(k, v)].
+Proof.
+  induction m as [|[k' v'] r IH]; intros Hn; [reflexivity|]. cbn [map_insert]. destruct (str_eqb k k') eqn:Ek.
+  - apply LossyRtP.str_eqb_eq in Ek. subst k'. exfalso. apply Hn. left. reflexivity.
+  - cbn [app]. rewrite IH; [reflexivity|]. intros H. apply Hn. right. exact H.
+Qed.
+
+(* what env_fold keeps: pairs that came from lines (or were there), keys distinct and without '=' *)
+Definition env_pair_ok (ls : list str) (kv : str * str) : Prop := In (env_line kv) ls /\ contains_char 61 (fst kv) = false.
+Lemma env_fold_inv ls : forall all m m', (forall l, In l ls -> In l all) ->
+  NoDup (map fst m) -> Forall (env_pair_ok all) m -> env_fold ls m = Some m' ->
+  NoDup (map fst m') /\ Forall (env_pair_ok all) m'.
+Proof.
+  induction ls as [|l r IH]; intros all m m' Hsub Hn Hf H; cbn [env_fold] in H; [injection H as <-; auto|].
+  destruct (split_once 61 l) as [[k v]|] eqn:Es; [|discriminate]. destruct (split_once_some _ _ _ _ Es) as [El Hk].
+  apply (IH all (map_insert k v m) m'); [intros l' Hl'; apply Hsub; right; exact Hl'|apply (map_insert_keys k v m Hn)| |exact H].
+  apply Forall_forall. intros kv Hkv. destruct (map_insert_in _ _ _ _ Hkv) as [->|Hin].
+  - split; [unfold env_line; cbn [fst snd]; rewrite <- El; apply Hsub; left; reflexivity|exact Hk].
+  - rewrite Forall_forall in Hf. apply Hf. exact Hin.
+Qed.
+Lemma env_fold_lines m2 : forall acc, NoDup (map fst (acc ++ m2)) -> Forall (fun kv => contains_char 61 (fst kv) = false) m2 ->
+  env_fold (map env_line m2) acc = Some (acc ++ m2).
+Proof.
+  induction m2 as [|[k v] r IH]; intros acc Hn Hk; cbn [map env_fold]; [rewrite app_nil_r; reflexivity|].
+  inversion Hk as [|? ? Hk1 Hkr]; subst. cbn [fst] in Hk1. unfold env_line at 1. cbn [fst snd]. rewrite (split_once_app 61 k v Hk1).
+  assert (Hfresh : ~ In k (map fst acc)).
+  { rewrite map_app in Hn. cbn [map fst] in Hn. apply NoDup_remove_2 in Hn. intros H. apply Hn. apply in_or_app. left. exact H. }
+  rewrite (map_insert_fresh k v acc Hfresh). rewrite (IH (acc ++ [(k, v)])); [rewrite <- app_assoc; reflexivity| |exact Hkr].
+  rewrite <- app_assoc. exact Hn.
+Qed.
+
+Lemma lines_of_canon x : canon_value x = true -> x <> [] -> lines x = split_lf x.
+Proof.
+  intros Hc Hne. pose proof (canon_value_lines x Hc) as Hj. unfold canon_value in Hc. pose proof (join_split_lf x) as Hs.
+  destruct (split_lf x) as [|l1 rest] eqn:Ex; [discriminate|]. apply andb_true_iff in Hc. destruct Hc as [H1 Hr].
+  unfold canon_first in H1. apply andb_true_iff in H1. destruct H1 as [Hn1 _].
+  rewrite <- Hs. apply lines_join.
+  - cbn [forallb]. rewrite Hn1. apply canon_cont_no_eol. exact Hr.
+  - destruct rest as [|l2 r2]; [cbn [last]; cbn [join] in Hs; congruence|].
+    change (last (l1 :: l2 :: r2) [1]) with (last (l2 :: r2) [1]). apply canon_cont_nonempty_last; [discriminate|exact Hr].
+Qed.
+
+(* a line of a canonical value: without LF/CR, not starting with a blank; '#' only on the first *)
+Definition line_ok (l : str) : bool := no_eol l && match l with c :: _ => negb (is_indent c) | [] => true end.
+Lemma canon_lines_ok x : canon_value x = true -> forallb line_ok (split_lf x) = true.
+Proof.
+  unfold canon_value. destruct (split_lf x) as [|l1 rest]; [discriminate|]. intros H. apply andb_true_iff in H. destruct H as [H1 Hr].
+  cbn [forallb]. apply andb_true_iff. split; [exact H1|]. apply forallb_forall. intros l Hl. rewrite forallb_forall in Hr. specialize (Hr l Hl).
+  unfold canon_cont in Hr. unfold line_ok. apply andb_true_iff in Hr. destruct Hr as [Hn Hh]. rewrite Hn. destruct l; [discriminate|].
+  apply andb_true_iff in Hh. destruct Hh as [Hh _]. rewrite Hh. reflexivity.
+Qed.
+
+Lemma last_in {A} (l : list A) d : l <> [] -> In (last l d) l.
+Proof.
+  induction l as [|a r IH]; [congruence|]. intros _. destruct r as [|b r']; [left; reflexivity|]. right. apply IH. discriminate.
+Qed.
+
+Lemma law_12 ll : law ll 12.
+Proof.
+  intros x e Hg Hx Hp. cbn [xguard] in Hg. unfold env_no_hash_line in Hg. cbn [xparse] in Hp.
+  destruct (env_parse x) as [ks|] eqn:Ep; [|discriminate]. injection Hp as <-. cbn [xprint]. unfold env_print.
+  pose proof (dom_canon _ _ Hx) as Hc. unfold env_parse in Ep. destruct (env_fold (lines x) []) as [m|] eqn:Ef; [|discriminate]. injection Ep as <-.
+  set (L := map env_line m) in *. set (ks := sort_str L) in *.
+  destruct (env_fold_inv (lines x) (lines x) [] m (fun l H => H) (NoDup_nil _) (Forall_nil _) Ef) as [Hnd Hok].
+  (* every line of the value is a line of the text read *)
+  assert (Hlines : forall k, In k ks -> In k (lines x) /\ contains_char 61 k = true).
+  { intros k Hk. apply (Permutation_in _ (sort_perm _)) in Hk. unfold L in Hk. apply in_map_iff in Hk. destruct Hk as (kv & <- & Hkv).
+    rewrite Forall_forall in Hok. destruct (Hok kv Hkv) as [H1 _]. split; [exact H1|]. unfold env_line, contains_char. rewrite existsb_app. cbn [existsb]. rewrite N.eqb_refl, orb_true_r. reflexivity. }
+  assert (Hkok : forall k, In k ks -> line_ok k = true /\ k <> []).
+  { intros k Hk. destruct (Hlines k Hk) as [H1 H2]. split; [|intros ->; discriminate].
+    destruct x as [|c0 x0] eqn:Ex; [cbn in H1; contradiction|]. rewrite <- Ex in *. rewrite (lines_of_canon x Hc) in H1 by (rewrite Ex; discriminate).
+    pose proof (canon_lines_ok x Hc) as Hl. rewrite forallb_forall in Hl. apply Hl. exact H1. }
+  assert (Hnl : forallb no_eol ks = true).
+  { apply forallb_forall. intros k Hk. destruct (Hkok k Hk) as [H1 _]. unfold line_ok in H1. apply andb_true_iff in H1. apply H1. }
+  destruct ks as [|k1 rest] eqn:Eks.
+  - (* the empty map *) cbn [join]. split; [reflexivity|]. rewrite rr_single by reflexivity. cbn [xparse]. unfold env_parse. cbn. reflexivity.
+  - rewrite <- Eks in *. assert (Hk1 : k1 <> []) by (apply (Hkok k1); rewrite Eks; left; reflexivity).
+    assert (Hsplit : split_lf (join [LF] ks) = ks).
+    { apply split_lf_join_nolf; [rewrite Eks; discriminate|]. apply forallb_forall. intros k Hk. apply no_eol_no_lf. rewrite forallb_forall in Hnl. apply Hnl. exact Hk. }
+    assert (Hcanon : canon_value (join [10] ks) = true).
+    { change [10] with [LF]. unfold canon_value. rewrite Hsplit, Eks. apply andb_true_iff. split.
+      - destruct (Hkok k1 ltac:(rewrite Eks; left; reflexivity)) as [H1 _]. exact H1.
+      - apply forallb_forall. intros k Hk. destruct (Hkok k ltac:(rewrite Eks; right; exact Hk)) as [H1 H2]. unfold line_ok in H1. apply andb_true_iff in H1.
+        destruct H1 as [Hn Hh]. unfold canon_cont. rewrite Hn. destruct k as [|ch k']; [congruence|]. rewrite Hh. cbn [andb].
+        rewrite Eks in Hg. cbn [tl] in Hg. rewrite forallb_forall in Hg. specialize (Hg _ Hk). unfold starts_hash in Hg. exact Hg. }
+    split; [exact Hcanon|].
+    assert (Hrr : rr ll (join [10] ks) = join [10] ks).
+    { destruct ll; [|reflexivity]. cbn [rr]. change [10] with [LF]. rewrite Eks. apply ll_norm_join; [exact Hk1|]. rewrite <- Eks.
+      apply forallb_forall. intros k Hk. apply no_eol_no_lf. rewrite forallb_forall in Hnl. apply Hnl. exact Hk. }
+    rewrite Hrr. cbn [xparse]. unfold env_parse.
+    assert (Hl : lines (join [10] ks) = ks).
+    { change [10] with [LF]. apply lines_join; [exact Hnl|]. apply (Hkok (last ks [1])). apply last_in. rewrite Eks. discriminate. }
+    rewrite Hl.
+    pose proof (sort_perm L) as HP. unfold L at 2 in HP. destruct (Permutation_map_inv _ _ HP) as (m2 & Em2 & Hperm).
+    fold L in Em2. fold ks in Em2.
+    assert (Hm2 : NoDup (map fst m2) /\ Forall (fun kv => contains_char 61 (fst kv) = false) m2).
+    { split; [apply (Permutation_NoDup (Permutation_map fst Hperm)); exact Hnd|]. apply Forall_forall. intros kv Hkv.
+      rewrite Forall_forall in Hok. apply (Hok kv). apply (Permutation_in _ (Permutation_sym Hperm)). exact Hkv. }
+    destruct Hm2 as [N2 K2]. rewrite Em2, (env_fold_lines m2 [] N2 K2). cbn [app option_map]. rewrite <- Em2. f_equal. f_equal.
+    apply sort_of_sorted. unfold ks. apply sort_sorted.
 Qed.
 
 End Ext0.
